@@ -79,7 +79,7 @@ def run_case(case):
         os.mkdir(os.path.join(s.root, ATTR_DIR))
         s.drain()  # the first watch knows the directory; the second one finds it in its initial walk
         frec = fsops.Recorder()
-        s.obs.schedule(frec.make_handler(), s.given, recursive=rec, event_filter=list(classes), **({"follow_symlink": True} if cfg.get("follow_symlink") else {}))
+        fsops.with_instances(lambda: s.obs.schedule(frec.make_handler(), s.given, recursive=rec, event_filter=list(classes), **({"follow_symlink": True} if cfg.get("follow_symlink") else {})))
         with s.rec.cond:
             upos = len(s.rec.events)  # what the first watch saw before the second one existed is not compared
         fpos = 0
